@@ -28,6 +28,9 @@ type ledgerCase struct {
 	// WalletBalance (decimal, per wallet and per denom; "" = the world's default 2e18) funds the wallets for the magnitude dimension:
 	// a fee or value of 2^64 wei and more (18.4 native coins) must be affordable to be executed at all.
 	WalletBalance string `json:"wallet_balance,omitempty"`
+	// Exist ("" = off) selects the account-existence mode of the world (c04_exist.go): which of the addresses that receive or hold
+	// value own a bank balance and whether they have an x/auth account record.
+	Exist string `json:"exist,omitempty"`
 }
 
 // txObs is what one tx did, as reported by consensus.
@@ -79,6 +82,9 @@ func ledgerWorld(c ledgerCase) *world.World {
 			panic("bad wallet balance")
 		}
 		cfg.WalletBalance = b
+	}
+	if c.Exist != "" {
+		c04ExistConfig(&cfg, c.Exist)
 	}
 	return world.New(cfg)
 }
